@@ -297,14 +297,14 @@ Fixpoint ser_value (ws : bool) (t : ctype) (v : cval) {struct t} : sres :=
       match t with
       | TUdt ks' nm' fts =>
           if negb (bytes_eqb ks ks' && bytes_eqb nm nm') then Err SE_UdtNameMismatch else
-          (fix go (fts : list (name * ctype)) (st : list (name * option cval)) {struct fts} : sres :=
-             match fts with
-             | [] => if is_nil st then Ok [] else Err SE_NoSuchFieldInUdt
-             | (fname, ft) :: r =>
-                 rbind (sub_sized_opt (ser_value true ft) (udt_field_value fname st)) (fun b =>
-                 rbind (go r (remove_name fname st)) (fun bs => Ok (b ++ bs)))
-             end) fts fields
-          |> (fun r => rbind r (finish ws))
+          rbind ((fix go (fts : list (name * ctype)) (st : list (name * option cval)) {struct fts} : sres :=
+                    match fts with
+                    | [] => if is_nil st then Ok [] else Err SE_NoSuchFieldInUdt
+                    | (fname, ft) :: r =>
+                        rbind (sub_sized_opt (ser_value true ft) (udt_field_value fname st)) (fun b =>
+                        rbind (go r (remove_name fname st)) (fun bs => Ok (b ++ bs)))
+                    end) fts fields)
+                (finish ws)
       | _ => Err SE_NotUdt
       end
   | CSmallInt z =>
@@ -320,22 +320,21 @@ Fixpoint ser_value (ws : bool) (t : ctype) (v : cval) {struct t} : sres :=
       match t with
       | TTuple ts =>
           if (List.length ts <? List.length l)%nat then Err SE_TupleWrongCount else
-          (fix go (ts : list ctype) (l : list (option cval)) {struct ts} : sres :=
-             match ts, l with
-             | et :: ts', ox :: l' =>
-                 rbind (sub_sized_opt (ser_value true et) ox) (fun b =>
-                 rbind (go ts' l') (fun bs => Ok (b ++ bs)))
-             | _, _ => Ok []
-             end) ts l
-          |> (fun r => rbind r (finish ws))
+          rbind ((fix go (ts : list ctype) (l : list (option cval)) {struct ts} : sres :=
+                    match ts, l with
+                    | et :: ts', ox :: l' =>
+                        rbind (sub_sized_opt (ser_value true et) ox) (fun b =>
+                        rbind (go ts' l') (fun bs => Ok (b ++ bs)))
+                    | _, _ => Ok []
+                    end) ts l)
+                (finish ws)
       | _ => Err SE_NotTuple
       end
   | CUuid b =>
       match t with TNative NUuid => Ok b | _ => Err SE_MismatchedType end
   | CVarint raw =>
       match t with TNative NVarint => set_value raw | _ => Err SE_MismatchedType end
-  end
-where "x |> f" := (f x).
+  end.
 
 (* What a CellWriter with flag [ws] receives for a bind marker / element of type [t].
    set_null / set_unset append the 4 marker bytes WHATEVER the flag says (writers.rs l.105-115);
@@ -919,6 +918,13 @@ Definition known_class_of (t : ctype) (v : cval) : option kclass :=
 (* typed vector carriers (ser_vector_cells): a null / unset / Empty element *)
 Definition cells_hole (cells : list cell) : bool :=
   existsb (fun c => match c with CNull | CUnset | CVal CEmpty => true | _ => false end) cells.
+
+(* ... or, with vint-prefixed elements, a LAST element whose encoding is empty (class B) *)
+Definition cells_trailing_empty (e : ctype) (cells : list cell) : bool :=
+  match type_size e, last (map Some cells) None with
+  | None, Some c => match ser_cell_ws false e c with Ok [] => true | _ => false end
+  | _, _ => false
+  end.
 
 (* ====================================================================================== *)
 (* 7. Specification: the wire format, transcribed from the protocol text                   *)
